@@ -121,6 +121,27 @@ def gen_rich_numeric_cases(rnd, n):
     return cases
 
 
+def gen_mixed_type_cases(rnd, n):
+    """the SAME aggregate several times in one select list, over a column of NUMBERS and over a column of numeric STRINGS whose numeric and alphabetic orders
+    differ ('9' < '100' as numbers, not as text): what one column decides about its values (text or number) must not be decided for the other. Python only
+    (a JS table of numbers and strings goes through Number() either way)."""
+    cases = []
+    for _ in range(n):
+        nrows = rnd.randint(1, 5)
+        A = [[rnd.choice(['x', 'y']), qgen.num(rnd.choice([3, 5, 40, 7])), rnd.choice(['9', '100', '25', '8', '1000'])] for _r in range(nrows)]
+        kind = rnd.choice(['min', 'max', 'sum', 'avg', 'median', 'variance'])
+        cols = [1, 2] if rnd.random() < 0.5 else [2, 1]
+        items = [{'agg': kind, 'e': ['a', c]} for c in cols]
+        if rnd.random() < 0.3:
+            items.append({'agg': kind, 'e': ['mul', ['a', 1], ['lit', qgen.num(2)]]})
+        grouped = rnd.random() < 0.4
+        q = {'items': ([{'e': ['a', 0]}] if grouped else []) + items}
+        if grouped:
+            q['group'] = [['a', 0]]
+        cases.append({'q': q, 'A': A, 'B': None})
+    return cases
+
+
 def run(res, tier, seed):
     res.rule = RULE
     res.assumptions = ['numeric arguments are homogeneous: numeric strings (Python: the int()/float() grammar of Model/Number.lean, tied string by string; rbql.js legs: the common plain grammar -?d+(.d+)?) or numbers; inf / nan and non-ASCII digits excluded', 'group keys of one type',
@@ -144,6 +165,9 @@ def run(res, tier, seed):
     rich = gen_rich_numeric_cases(random.Random(seed * 19 + 3), 1500 if tier == 'quick' else 20000)
     res.count('rich_numeric_string_cases(full int()/float() grammar, Python only)', len(rich))
     engine_corr.run_cases(res, 'C03', rich, 'py', rnd=random.Random(seed + 9))
+    mixed = gen_mixed_type_cases(random.Random(seed * 23 + 3), 600 if tier == 'quick' else 8000)
+    res.count('same_aggregate_over_number_and_string_columns(Python only)', len(mixed))
+    engine_corr.run_cases(res, 'C03', mixed, 'py', rnd=random.Random(seed + 10))
     import number_corr
     number_corr.run_leg(res, tier, seed, 'C03')
     builtin_dispatch_check(res)
